@@ -149,8 +149,16 @@ def rule_d(repo, chk):
     c = cfg_of(f)
     tests = [n for n in c.nodes if n.kind == 'test' and isinstance(n.ast, ast.Call) and call_name(n.ast) == 'any' and 'found_names_dct' in norm(n.ast)]
     chk.ob('C05.d', len(tests) == 1, f, 'one intersection test against found_names_dct')
-    upd_new = [x for x in calls_in(f, 'update') if norm(x.func.value) == 'found_names_dct' and norm(x.args[0]) == 'new']
-    upd_old = [x for x in calls_in(f, 'update') if norm(x.func.value) == 'found_names_dct' and norm(x.args[0]) == 'dct']
+    # the candidate map is the local bound from _dictionarize(_find_names(...)); the earlier maps are what a loop over
+    # non_matching_reference_maps.get(...) hands out - identified by what they are bound from, not by their names
+    cand = {a.targets[0].id for a in stmts_in(f, ast.Assign) if len(a.targets) == 1 and isinstance(a.targets[0], ast.Name)
+            and call_name(a.value) == '_dictionarize' and a.value.args and call_name(a.value.args[0]) == '_find_names'}
+    chk.ob('C05.d', len(cand) == 1, f, 'one candidate map per examined token: _dictionarize(_find_names(module, leaf))')
+    new_ = next(iter(cand), 'new')
+    earlier = {n.target.id for n in own_nodes(f) if isinstance(n, ast.For) and isinstance(n.target, ast.Name)
+               and isinstance(n.iter, ast.Call) and norm(n.iter.func) == 'non_matching_reference_maps.get'}
+    upd_new = [x for x in calls_in(f, 'update') if norm(x.func.value) == 'found_names_dct' and norm(x.args[0]) == new_]
+    upd_old = [x for x in calls_in(f, 'update') if norm(x.func.value) == 'found_names_dct' and norm(x.args[0]) in earlier]
     chk.ob('C05.d', bool(upd_new) and bool(upd_old), f, 'the matching branch merges the candidate map and the earlier non-matching maps')
     for t in tests:
         starts = [m for m, k in t.succ if k == 'T']
@@ -171,11 +179,11 @@ def rule_d(repo, chk):
                     return norm(a.iter)
             return None
         s_reg, s_get = iter_source(regs[0]), iter_source(gets[0])
-        chk.ob('C05.d', s_reg is not None and s_reg == s_get == 'new', regs[0],
+        chk.ob('C05.d', s_reg is not None and s_reg == s_get == new_, regs[0],
                'the table is registered and looked up under the same keys (the tree names of a candidate map: `for k in new`)',
                'registered under keys of `%s`, looked up under keys of `%s`' % (s_reg, s_get))
         ok = len(regs[0].args) == 2 and isinstance(regs[0].args[1], ast.List) and isinstance(getattr(regs[0], '_parent', None), ast.Attribute) \
-            and regs[0]._parent.attr == 'append' and norm(regs[0]._parent._parent.args[0]) == 'new'
+            and regs[0]._parent.attr == 'append' and norm(regs[0]._parent._parent.args[0]) == new_
         chk.ob('C05.d', ok, regs[0], 'what is registered is the candidate map itself')
     d = repo.find(REFS, '_dictionarize')
     ok = any(isinstance(x, ast.IfExp) and norm(x) == 'n if n.tree_name is None else n.tree_name' for x in ast.walk(d))
